@@ -2455,6 +2455,8 @@ void uncrustify_file(const file_mem &fm, FILE *pfout, const char *parsed_file,
             // retry line breaks caused by splitting 1-liners
             newlines_cleanup_braces(false);
             newlines_insert_blank_lines();
+            do_blank_lines();
+            newlines_eat_start_end();
             newlines_functions_remove_extra_blank_lines();
             newlines_remove_disallowed();
             first = false;
